@@ -24,7 +24,7 @@ func init() {
 type fileSpec struct {
 	Total   int // total TLV size
 	TagLen  int // 1 or 2
-	LenForm int // 0 short, 1 = 81, 2 = 82
+	LenForm int // 0 short, 1 = 81, 2 = 82, 3 = indefinite (80 ... 00 00)
 	Pad     int // physical padding after the TLV
 }
 
@@ -47,6 +47,9 @@ func (f fileSpec) build() (tlv []byte, phys []byte) {
 
 func (f fileSpec) build0() (tlv []byte, phys []byte) {
 	h := f.TagLen + 1 + f.LenForm
+	if f.LenForm == 3 {
+		h = f.TagLen + 1 + 2 // 80 and the end-of-contents octets
+	}
 	l := f.Total - h
 	if l < 0 {
 		return nil, nil
@@ -60,7 +63,7 @@ func (f fileSpec) build0() (tlv []byte, phys []byte) {
 		if l > 255 {
 			return nil, nil
 		}
-	case 2:
+	case 2, 3:
 		if l > 65535 {
 			return nil, nil
 		}
@@ -77,6 +80,29 @@ func (f fileSpec) build0() (tlv []byte, phys []byte) {
 		tlv = append(tlv, 0x81, byte(l))
 	case 2:
 		tlv = append(tlv, 0x82, byte(l>>8), byte(l))
+	case 3:
+		tlv = append(tlv, 0x80)
+	}
+	if f.LenForm == 3 {
+		// indefinite length: the value must itself be TLV; one primitive 04 element (or nothing) then 00 00
+		switch {
+		case l == 0:
+		case l == 1:
+			return nil, nil
+		case l-2 < 128:
+			tlv = append(tlv, 0x04, byte(l-2))
+			for i := 0; i < l-2; i++ {
+				tlv = append(tlv, byte(i)*7^0x33)
+			}
+		default:
+			return nil, nil
+		}
+		tlv = append(tlv, 0x00, 0x00)
+		phys = append([]byte{}, tlv...)
+		for i := 0; i < f.Pad; i++ {
+			phys = append(phys, 0xC0+byte(i%7))
+		}
+		return
 	}
 	for i := 0; i < l; i++ {
 		tlv = append(tlv, byte(i)^byte(i>>8)*17^byte(i>>16)*29^0x5A)
@@ -192,6 +218,8 @@ func runScenario(sc scenario, env *explore.Env) outcome {
 func classifyWrong(data, tlv, phys []byte, sc scenario) (string, string) {
 	what := fmt.Sprintf("ReadFile returned %d bytes, the stored object has %d (file %+v maxLe %d); first difference at %d", len(data), len(tlv), sc.File, sc.MaxLe, firstDiff(data, tlv))
 	switch {
+	case sc.File.LenForm == 3 && len(data) < len(tlv) && bytes.Equal(data, tlv[:len(data)]):
+		return "wrong/prefix/indefinite-length-top-level-object", what
 	case len(data) < len(tlv) && bytes.Equal(data, tlv[:len(data)]):
 		return "wrong/prefix", what
 	case len(data) > len(tlv) && bytes.Equal(data[:len(tlv)], tlv) && bytes.Equal(data, phys[:min(len(phys), len(data))]):
@@ -248,7 +276,7 @@ func run(c *vc.Ctx) {
 			})
 		}
 	}
-	forms := []struct{ tl, lf int }{{1, 0}, {1, 1}, {1, 2}, {2, 0}, {2, 1}, {2, 2}}
+	forms := []struct{ tl, lf int }{{1, 0}, {1, 1}, {1, 2}, {2, 0}, {2, 1}, {2, 2}, {1, 3}, {2, 3}}
 
 	// (i) every chunking of tiny files
 	sec1 := "(i) all chunkings of files of total size 2..10"
